@@ -1,19 +1,20 @@
 """C16 - SASL: the right mechanism, carrying exactly the caller's credentials.
 
 U1 supported list, U2 dispatch exhaustiveness, U3 selection logic (finite
-domain), U4 payload templates, U5 gs2 header hygiene, U6 resolvable names and
+domain), U4 payload templates, U5 gs2 header hygiene, U7 sender bytes by evaluation, U6 resolvable names and
 no bytes/str mixing below the mechanism functions.
 """
 import ast
 import builtins
+import copy
 import itertools
 
 from sa import fd
-from sa.model import AnalysisError, walk_no_nested, norm, call_name
+from sa.model import AnalysisError, walk_no_nested, norm, call_name, mangle, Func
 from sa.util import module_resolver, self_calls, const_value, bound_arg
 from sa.consteval import TOP, Evaluator
 from .roles import ClientRoles
-from .c10 import authenticator, mechanisms, sender_sites
+from .c10 import authenticator, mechanisms, sender_sites, selection_feeders, selection_slice
 from ref import ms_spec
 
 
@@ -30,7 +31,8 @@ def run(ctx):
         "OAUTHBEARER = b64('n,a=' saslname(login) ',' ^A 'auth=Bearer ' token ^A^A), and the credentials reach the "
         "mechanism functions only as .encode('utf-8') of connect's parameters in the right positions; (U5) the value "
         "after 'a=' passes the saslname escaper ('=' before ','); (U6) no unresolvable global name, Python-2-only "
-        "method or bytes/str mix in code reachable from a mechanism function.")
+        "method or bytes/str mix in code reachable from a mechanism function; (U7) the command sender writes verb + "
+        "formatted arguments + CRLF (+ continuation lines) for every setting of its flags (evaluation over sample argument lists).")
     ctx.not_decided = "the RFC 2831 DIGEST-MD5 response arithmetic; server verdicts."
     auth = authenticator(R, "U")
     mech = mechanisms(R)
@@ -56,6 +58,28 @@ def run(ctx):
     if not mech_param:
         raise AnalysisError("U3", "authenticator has no mechanism parameter")
     mech_param = mech_param[0]
+    # the caller may compute the candidates first (`m = self.usable(authmech); self.auth(l, p, a, m)`)
+    feeder = next((x for x in selection_feeders(R, auth) if x[3] < len(params) and params[x[3]] == mech_param), None)
+    feeder_param = None
+    sl = selection_slice(R, auth) if feeder is None else None
+    if sl is not None and sl[3] < len(params) and params[sl[3]] == mech_param:
+        cm = [p for p in sl[0].params if "mech" in p.lower()]
+        if len(cm) != 1:
+            raise AnalysisError("U3", "in-line candidate computation in %s: no mechanism parameter" % sl[0].qualname)
+        synth = ast.FunctionDef(name="__selection__", args=copy.deepcopy(sl[0].node.args), decorator_list=[], returns=None, type_comment=None,
+                                body=list(sl[1]) + [ast.copy_location(ast.Return(value=ast.copy_location(ast.Name(id=sl[2], ctx=ast.Load()), sl[4])),
+                                                                      sl[4])], type_params=[])
+        ast.copy_location(synth, sl[0].node)
+        synth.args.defaults, synth.args.kw_defaults = [], [None] * len(synth.args.kwonlyargs)
+        feeder = (sl[0], Func(synth, R.module, R.cls), sl[4], sl[3])
+        feeder_param = cm[0]
+        ctx.holds("U3", "the candidates handed to %s are computed in line by %s (%d statements)" % (auth.qualname, sl[0].qualname, len(sl[1])))
+    elif feeder is not None:
+        hp = feeder[1].params[1:]
+        if len(hp) != 1 or len(feeder[2].args) + len(feeder[2].keywords) != 1:
+            raise AnalysisError("U3", "candidate helper %s: unexpected signature" % feeder[1].qualname)
+        feeder_param = hp[0]
+        ctx.holds("U3", "the candidates handed to %s are computed by %s(%s)" % (auth.qualname, feeder[1].qualname, feeder_param))
     universe = list(ms_spec.SUPPORTED_MECHS) + ["CRAM-MD5"]
     server_sets = []
     for r in range(len(universe) + 1):
@@ -77,9 +101,22 @@ def run(ctx):
                 if name and name.startswith("self.") and name[5:] not in R.methods and name[5:].endswith("_authentication"):
                     return [fd.Exc("AttributeError", e)]
                 return None
-            it = fd.Interp(auth.node, R.cls.name, oracle, resolve=module_resolver(ctx.program, R.module))
             try:
-                paths = it.run({mech_param: fd.Const(pref)})
+                if feeder is None:
+                    it = fd.Interp(auth.node, R.cls.name, oracle, resolve=module_resolver(ctx.program, R.module))
+                    paths = it.run({mech_param: fd.Const(pref)})
+                else:
+                    # the candidates are computed by a helper of the caller: evaluate helper, then authenticator on each result
+                    paths = []
+                    it0 = fd.Interp(feeder[1].node, R.cls.name, oracle, resolve=module_resolver(ctx.program, R.module))
+                    for p0 in it0.run({feeder_param: fd.Const(pref)}):
+                        if p0.kind != "return":
+                            paths.append(p0)
+                            continue
+                        it = fd.Interp(auth.node, R.cls.name, oracle, resolve=module_resolver(ctx.program, R.module))
+                        for p1 in it.run({mech_param: p0.value}):
+                            p1.events = list(p0.events) + list(p1.events)
+                            paths.append(p1)
             except fd.TooManyPaths:
                 raise AnalysisError("U3", "path explosion")
             cands = [pref] if pref in supp else list(supp)
@@ -156,7 +193,14 @@ def run(ctx):
                       "in that order", node=auth.node, witness="login and password swapped or re-encoded")
     if conn is not None:
         cc = self_calls(conn, auth.name)
-        if cc and [norm(a) for a in cc[0].args[:4]] == conn.params[1:4] + [p for p in conn.params if "mech" in p.lower()][:1]:
+        cmech = [p for p in conn.params if "mech" in p.lower()][:1]
+        passed = [norm(a) for a in cc[0].args[:4]] if cc else []
+        if sl is not None and feeder is not None and feeder[0] is conn and len(passed) == 4:
+            passed[3] = feeder_param  # computed in line from the mechanism parameter (evaluated by U3)
+        elif feeder is not None and feeder[0] is conn and len(passed) == 4:
+            a_ = feeder[2].args[0] if feeder[2].args else feeder[2].keywords[0].value
+            passed[3] = norm(a_)
+        if cc and passed == conn.params[1:4] + cmech:
             ctx.holds("U4", "connect passes its credentials to the authenticator unchanged")
         else:
             ctx.violation("U4", conn, "credential-plumbing-connect", "connect does not pass (login, password, authz_id, authmech) unchanged: %s"
@@ -262,6 +306,10 @@ def run(ctx):
                           witness="login 'o=acme,cn=joe' yields the malformed gs2 header n,a=o=acme,cn=joe,")
         else:
             check("_oauthbearer_authentication", got, want_esc, "initial response", c)
+
+    # ---- U7: the payload handed to the sender is what goes out ------------------------
+    from .c08 import w9
+    w9(ctx, R, rule="U7")
 
     # ---- U6 ------------------------------------------------------------------------
     ctx.rule("U6", "no unresolved global, Python-2-only method or bytes/str mix in code reachable from a mechanism function")
@@ -409,12 +457,84 @@ def template(ctx, f, e, at=None, depth=0):
                     out += sep
                 out += t
             return _merge(out)
+        if cn == "join" and isinstance(e.func, ast.Attribute) and len(e.args) == 1 and isinstance(e.args[0], (ast.GeneratorExp, ast.ListComp)):
+            # sep.join(E for T in <literal sequence>): the items are E with T replaced by each element in turn
+            items = _unrolled(f, e.args[0], at or e)
+            if items is None:
+                return None
+            return template(ctx, f, ast.copy_location(ast.Call(func=e.func, args=[ast.copy_location(ast.List(elts=items, ctx=ast.Load()), e)],
+                                                               keywords=[]), e), at or e, depth + 1)
         if cn == "replace" and isinstance(e.func, ast.Attribute) and len(e.args) == 2:
             base = template(ctx, f, e.func.value, at, depth + 1)
             if base is None:
                 return None
             return _fold_repl(const_value(ctx.program, f, e.args[0]), const_value(ctx.program, f, e.args[1]), base)
+        if len(e.args) == 1 and not e.keywords and _is_coercion(ctx, f, e):
+            return template(ctx, f, e.args[0], at, depth + 1)
     return None
+
+
+def _is_coercion(ctx, f, call):
+    """helper(x) every return of which is x itself or x.encode(...): the identity on the byte level (the same reading as the
+    in-place `x = x.encode(...)` under a type test)."""
+    callee = None
+    if isinstance(call.func, ast.Name):
+        callee = f.module.funcs.get(call.func.id)
+        npar = 0
+    elif isinstance(call.func, ast.Attribute) and isinstance(call.func.value, ast.Name) and call.func.value.id == "self" and f.cls is not None:
+        callee = ctx.program.method(f.cls, call.func.attr) or ctx.program.method(f.cls, mangle(f.cls.name, call.func.attr))
+        npar = 1
+    if callee is None or len(callee.params) != npar + 1:
+        return False
+    p = callee.params[npar]
+    rets = [r for r in walk_no_nested(callee.node) if isinstance(r, ast.Return)]
+    if not rets or any(isinstance(n, (ast.Assign, ast.AugAssign, ast.AnnAssign, ast.Delete, ast.Global)) for n in walk_no_nested(callee.node)):
+        return False
+    for r in rets:
+        v = r.value
+        if isinstance(v, ast.Name) and v.id == p:
+            continue
+        if isinstance(v, ast.Call) and isinstance(v.func, ast.Attribute) and v.func.attr == "encode" and isinstance(v.func.value, ast.Name) \
+                and v.func.value.id == p:
+            continue
+        return False
+    return True
+
+
+def _unrolled(f, comp, at):
+    if len(comp.generators) != 1 or comp.generators[0].ifs or comp.generators[0].is_async:
+        return None
+    g = comp.generators[0]
+    seq = g.iter
+    if isinstance(seq, ast.Name):
+        line = at.lineno
+        defs = sorted((d for d in walk_no_nested(f.node) if isinstance(d, ast.Assign) and any(
+            isinstance(t, ast.Name) and t.id == seq.id for t in d.targets)), key=lambda d: d.lineno)
+        if len(defs) != 1 or defs[0].lineno >= line:
+            return None
+        seq = defs[0].value
+    if not isinstance(seq, (ast.List, ast.Tuple)) or any(isinstance(x, ast.Starred) for x in seq.elts):
+        return None
+    out = []
+    for el in seq.elts:
+        if isinstance(g.target, ast.Name):
+            env = {g.target.id: el}
+        elif isinstance(g.target, ast.Tuple) and isinstance(el, (ast.Tuple, ast.List)) and len(el.elts) == len(g.target.elts) \
+                and all(isinstance(t, ast.Name) for t in g.target.elts):
+            env = {t.id: x for t, x in zip(g.target.elts, el.elts)}
+        else:
+            return None
+
+        class Sub(ast.NodeTransformer):
+            def visit_Name(self, n):
+                return copy.deepcopy(env[n.id]) if n.id in env else n
+        item = Sub().visit(copy.deepcopy(comp.elt))
+        for n in ast.walk(item):
+            n.lineno = getattr(n, "lineno", at.lineno)
+            if not hasattr(n, "col_offset"):
+                n.col_offset = 0
+        out.append(item)
+    return out
 
 
 def _fold_repl(a, b, base):
